@@ -1,5 +1,6 @@
 import Driver.Loop
 import PytypeModel.Sem.ArgBind
+import PytypeModel.Sem.KwReg
 open PytypeModel.ArgBind
 
 /-! protocol (names are Nat codes; lists comma-separated, `-` = empty / absent):
@@ -73,6 +74,19 @@ def stepC13 (s : Sig) (line : String) : Sig × Option String :=
     match n.toNat?, parseList ks with
     | some n, some ks => (s, some (runCall true s ⟨n, ks⟩))
     | _, _ => (s, some "bad-op")
+  | "kw" :: evs =>
+    -- `kw <ev> …`, ev = `k:name,name` (KW_NAMES) | `c:<n>` (CALL with n operands)
+    -- → `<wellPaired 0/1> <npos>:<names>|…` (one entry per call event; the VM model started with an empty register)
+    let parseEv (w : String) : Option PytypeModel.KwReg.Ev :=
+      match w.splitOn ":" with
+      | ["k", ns] => some (.kw (if ns == "" then [] else ns.splitOn ","))
+      | ["c", n] => n.toNat?.map .call
+      | _ => none
+    match (evs.filter (· ≠ "")).mapM parseEv with
+    | some t =>
+      let out := (PytypeModel.KwReg.run [] t).map fun sp => s!"{sp.npos}:{",".intercalate sp.named}"
+      (s, some s!"{if PytypeModel.KwReg.wellPaired t then 1 else 0} {"|".intercalate out}")
+    | none => (s, some "bad-op")
   | _ => (s, some "bad-op")
 
 def main : IO Unit := Driver.run emptySig stepC13
